@@ -1006,6 +1006,15 @@ extern "C" int __wrap_open(const char *path, int flags, ...) {
     errno = a->err ? a->err : EMFILE;
     return -1;
   }
+  if (G.w.fd_limit > 0) {
+    int held = 0;
+    for (const SimState::Fd &x : G.fds) held += x.open;
+    if (held >= G.w.fd_limit) {  // the process's own doing, not an injected refusal
+      G.st.fd_limit_hits++;
+      errno = EMFILE;
+      return -1;
+    }
+  }
   const bool wr = (flags & O_ACCMODE) != O_RDONLY;
   if (wr && !strcmp(path, "/dev/stdout")) {  // another descriptor for the process's standard output
     SimState::Fd fd;
